@@ -13,13 +13,16 @@ pub fn plan_for(property: &str) -> Option<(&'static str, Vec<PlanItem>)> {
     Some(match property {
         "C01" => (
             "C01",
-            vec![PlanItem {
-                family: "duplex",
-                run: c01_duplex,
-                quick: 20000,
-                thorough: 600000,
-                determinism_check: true,
-            }],
+            vec![
+                PlanItem {
+                    family: "duplex",
+                    run: c01_duplex,
+                    quick: 20000,
+                    thorough: 600000,
+                    determinism_check: true,
+                },
+                PlanItem { family: "probe_faults", run: c01_probe_faults, quick: 6000, thorough: 120000, determinism_check: false },
+            ],
         ),
         "C02" => (
             "C02",
@@ -61,6 +64,7 @@ pub fn plan_for(property: &str) -> Option<(&'static str, Vec<PlanItem>)> {
             vec![
                 PlanItem { family: "direct_seqnr", run: crate::fam::direct::direct_seqnr, quick: 256, thorough: 1024, determinism_check: false },
                 PlanItem { family: "metamorphic", run: c09_metamorphic, quick: 3000, thorough: 40000, determinism_check: true },
+                PlanItem { family: "script_pairs", run: c09_script_pairs, quick: 9000, thorough: 150000, determinism_check: false },
             ],
         ),
         "C11" => (
@@ -69,6 +73,7 @@ pub fn plan_for(property: &str) -> Option<(&'static str, Vec<PlanItem>)> {
                 PlanItem { family: "wire_grid", run: crate::fam::direct::direct_wire_grid, quick: 256, thorough: 2560, determinism_check: false },
                 PlanItem { family: "wire_random", run: crate::fam::direct::direct_wire_random, quick: 2000, thorough: 20000, determinism_check: false },
                 PlanItem { family: "emitted", run: c11_emitted, quick: 6000, thorough: 60000, determinism_check: false },
+                PlanItem { family: "emitted_resets", run: c11_emitted_resets, quick: 1500, thorough: 15000, determinism_check: false },
             ],
         ),
         "C05" => (
@@ -101,6 +106,7 @@ pub fn plan_for(property: &str) -> Option<(&'static str, Vec<PlanItem>)> {
                 PlanItem { family: "mtu_duplex", run: c14_duplex, quick: 8000, thorough: 100000, determinism_check: true },
                 PlanItem { family: "mtu_converge", run: c14_converge, quick: 600, thorough: 12000, determinism_check: false },
                 PlanItem { family: "mtu_peer_sizes", run: c14_tx, quick: 4000, thorough: 60000, determinism_check: false },
+                PlanItem { family: "probe_faults", run: c14_probe_faults, quick: 4000, thorough: 80000, determinism_check: false },
             ],
         ),
         "C08" => (
@@ -304,6 +310,194 @@ fn c09_metamorphic(ctx: &CaseCtx) -> CaseReport {
     if ctx.keep_events || !rep.violations.is_empty() {
         rep.events = last_events;
     }
+    rep
+}
+
+/// C09 on the scripted families: the same script (receiver scripts with half-closed states and
+/// packets after FIN, sender scripts with losses, duplicate / selective / stale ACKs and silence,
+/// handshake / teardown walks) is run with several placements of the two initial sequence numbers -
+/// local below remote, remote below local, local numbers wrapping in the middle of the script,
+/// remote numbers wrapping - and everything the real endpoint emits (time, type, sequence and
+/// acknowledgement numbers relative to the two initial numbers, window, selective-ACK bits, payload
+/// length) and every application return must be identical.
+fn c09_script_pairs(ctx: &CaseCtx) -> CaseReport {
+    use crate::events::{ApiOp, Ev};
+    use crate::fam::{hsscript as hs, rxscript as rx, txscript as tx};
+    let mut rep = CaseReport::new(ctx.family, ctx.index, ctx.case_seed);
+    let mut rng = crate::prng::Prng::new(ctx.case_seed ^ 0x15_2A1D);
+    let kind = ctx.index % 4;
+    // how many sequence numbers each side uses at most (to place a wrap inside the script)
+    let (span_local, span_peer, desc): (u64, u64, String) = match kind {
+        0 | 1 => {
+            let c = rx::generate(ctx.case_seed, if kind == 0 { rx::RxFocus::Honesty } else { rx::RxFocus::Timing }, 150);
+            (4, c.lens.len() as u64 + 4, format!("rx {}", c.describe()))
+        }
+        2 => {
+            let c = tx::generate(ctx.case_seed, tx::TxFocus::Retransmit, 80_000);
+            ((c.writer.total / c.sock.min_payload(!c.ipv6).max(1)) as u64 + 4, 4, format!("tx {}", c.describe()))
+        }
+        _ => {
+            let c = hs::generate(ctx.case_seed);
+            (12, 12, format!("hs {}", c.describe()))
+        }
+    };
+    let small = |r: &mut crate::prng::Prng| r.range(1, 2000) as u16;
+    let mid = |r: &mut crate::prng::Prng| r.range(3000, 30000) as u16;
+    let wrapping = |r: &mut crate::prng::Prng, span: u64| 65535u16.wrapping_sub(r.below(span + 2) as u16);
+    let base = (small(&mut rng), mid(&mut rng));
+    let mut layouts: Vec<(&'static str, u16, u16)> = vec![("local below remote", base.0, base.1), ("remote below local", base.1, base.0)];
+    if rng.chance(0.5) {
+        layouts.push(("local numbers wrap", wrapping(&mut rng, span_local), mid(&mut rng)));
+    } else {
+        layouts.push(("remote numbers wrap", mid(&mut rng), wrapping(&mut rng, span_peer)));
+    }
+    if rng.chance(0.3) {
+        layouts.push(("both near the wrap", wrapping(&mut rng, span_local), wrapping(&mut rng, span_peer)));
+    }
+    let cid = rng.below(65536) as u16;
+    rep.desc = format!("{desc} layouts(local isn, remote isn)={:?}", layouts);
+    let mut sigs: Vec<(Vec<String>, Option<String>)> = Vec::new();
+    let mut last_events = Vec::new();
+    let mut end_time = 0;
+    for (_, local_isn, peer_isn) in &layouts {
+        let forced = vec![cid, *local_isn];
+        let (events, panicked, end, real_port) = match kind {
+            0 | 1 => {
+                let mut c = rx::generate(ctx.case_seed, if kind == 0 { rx::RxFocus::Honesty } else { rx::RxFocus::Timing }, 150);
+                c.peer_isn = *peer_isn;
+                c.sock.forced_random = forced;
+                let r = rx::run_rx(ctx.case_seed, &c);
+                (r.events, r.panicked, r.end_time, rx::REAL_PORT)
+            }
+            2 => {
+                let mut c = tx::generate(ctx.case_seed, tx::TxFocus::Retransmit, 80_000);
+                c.peer_isn = *peer_isn;
+                c.sock.forced_random = forced;
+                let r = tx::run_tx(ctx.case_seed, &c);
+                (r.events, r.panicked, r.end_time, tx::REAL_PORT)
+            }
+            _ => {
+                let mut c = hs::generate(ctx.case_seed);
+                c.peer_isn = *peer_isn;
+                c.sock.forced_random = forced;
+                let r = hs::run_hs(ctx.case_seed, &c, false);
+                (r.events, r.panicked, r.end_time, hs::REAL_PORT)
+            }
+        };
+        let mut sig: Vec<String> = Vec::new();
+        let mut local0: Option<u16> = None;
+        for e in &events {
+            match &e.ev {
+                Ev::Send { src, pkt: Some(p), scripted: false, .. } if src.port() == real_port => {
+                    let l0 = *local0.get_or_insert(p.seq);
+                    let rel_ack = if p.ty == crate::wire::ST_SYN { 0 } else { p.ack.wrapping_sub(*peer_isn) };
+                    sig.push(format!("{} ty{} seq+{} ack+{} wnd{} len{} sack{:?}", e.t, p.ty, p.seq.wrapping_sub(l0), rel_ack, p.wnd, p.payload.len(), p.sack()));
+                }
+                Ev::Api { side, op, .. } => match op {
+                    ApiOp::AcceptRet(_) | ApiOp::ConnectRet(_) | ApiOp::WriteRet(_) | ApiOp::ReadRet(_) | ApiOp::FlushRet(_) | ApiOp::ShutdownRet(_) => sig.push(format!("{} s{} {:?}", e.t, side, op)),
+                    _ => {}
+                },
+                _ => {}
+            }
+        }
+        rep.counters.add("c09_script_emissions_compared", sig.len() as u64);
+        if (*local_isn as u64) + span_local > 65535 || (*peer_isn as u64) + span_peer > 65535 {
+            rep.counters.inc("c09_script_runs_placed_at_the_wrap");
+        }
+        sigs.push((sig, panicked));
+        end_time = end;
+        last_events = events;
+    }
+    rep.counters.add("c09_script_layouts_run", layouts.len() as u64);
+    for k in 1..sigs.len() {
+        rep.counters.inc("c09_script_pairs_compared");
+        if sigs[0].1.is_some() || sigs[k].1.is_some() {
+            rep.inconclusive.push(format!("panic during a run: {:?} / {:?}", sigs[0].1, sigs[k].1));
+            continue;
+        }
+        if sigs[0].0 != sigs[k].0 {
+            let i = sigs[0].0.iter().zip(sigs[k].0.iter()).position(|(x, y)| x != y).unwrap_or(sigs[0].0.len().min(sigs[k].0.len()));
+            rep.violate(
+                "C09",
+                "behaviour-depends-on-isn",
+                format!("script {}", ["rx-honesty", "rx-timing", "tx-retransmit", "handshake"][kind as usize]),
+                format!(
+                    "the same script behaves differently with initial numbers {:?} ({}) than with {:?} ({}): first difference at emission / return #{i}: {:?} vs {:?}",
+                    (layouts[k].1, layouts[k].2),
+                    layouts[k].0,
+                    (layouts[0].1, layouts[0].2),
+                    layouts[0].0,
+                    sigs[k].0.get(i),
+                    sigs[0].0.get(i)
+                ),
+                None,
+            );
+            break;
+        }
+    }
+    rep.trace_hash = crate::prng::mix2(ctx.case_seed, sigs[0].0.len() as u64);
+    rep.nontrivial = sigs[0].0.len() > 3;
+    rep.end_time = end_time;
+    if ctx.keep_events || !rep.violations.is_empty() {
+        rep.events = last_events;
+    }
+    rep
+}
+
+/// C11, emitted RESETs: the one place where the library emits an ST_RESET is the refusal of a SYN
+/// that meets a full backlog. Backlog-shaped cases of the accept family; every RESET the listener
+/// emits must be parseable, carry the refused SYN's own connection id (the id its sender receives
+/// on) and acknowledge the SYN's sequence number (the C13 backlog oracles, reported under C11).
+fn c11_emitted_resets(ctx: &CaseCtx) -> CaseReport {
+    use crate::fam::accept as ac;
+    let mut rep = CaseReport::new(ctx.family, ctx.index, ctx.case_seed);
+    // search forward from the case seed for a Backlog-shaped configuration
+    let mut found = None;
+    for k in 0..16u64 {
+        let cs = crate::prng::mix2(ctx.case_seed, k);
+        let (cfg, plan, pdesc) = ac::generate(cs);
+        if cfg.shape == ac::Shape::Backlog {
+            found = Some((cs, cfg, plan, pdesc));
+            break;
+        }
+    }
+    let (cs, cfg, plan, pdesc) = match found {
+        Some(x) => x,
+        None => {
+            rep.counters.inc("c11_reset_cases_skipped");
+            return rep;
+        }
+    };
+    rep.desc = format!("{} plan[{}]", cfg.describe(), pdesc);
+    let run = ac::run_accept(cs, &cfg, plan);
+    let view = WireView::build(&run.events);
+    let mut tmp = CaseReport::new(ctx.family, ctx.index, ctx.case_seed);
+    mon::c13::check(&mut tmp, &run.events, &cfg, run.result.as_ref());
+    for v in &tmp.violations {
+        if v.rule == "backlog" && (v.signature.contains("RESET") || v.signature.contains("reset")) {
+            rep.violate("C11", "reset-fields", v.signature.clone(), v.detail.clone(), v.at);
+        }
+    }
+    let mut resets = 0u64;
+    for p in &view.pkts {
+        if p.src == ac::listener_addr() {
+            if let Some(k) = &p.pkt {
+                if k.ty == crate::wire::ST_RESET {
+                    resets += 1;
+                    if k.ver != 1 || !k.payload.is_empty() {
+                        rep.violate("C11", "reset-fields", "malformed RESET", format!("RESET emitted at {} us: version {} payload {}", p.t, k.ver, k.payload.len()), Some(p.t));
+                    }
+                }
+            } else {
+                rep.violate("C11", "emitted-unparseable", "listener", format!("datagram emitted at {} us is rejected by the independent parser", p.t), Some(p.t));
+            }
+        }
+    }
+    rep.counters.add("c11_emitted_resets_checked", resets);
+    rep.counters.add("datagrams", view.pkts.len() as u64);
+    rep.nontrivial = resets > 0;
+    let end = run.end_time;
+    finish(&mut rep, ctx, &view, run.events, end);
     rep
 }
 
@@ -678,7 +872,8 @@ fn c12_multi(ctx: &CaseCtx) -> CaseReport {
 fn c08_life(ctx: &CaseCtx) -> CaseReport {
     use crate::fam::lifecycle as lf;
     let mut rep = CaseReport::new(ctx.family, ctx.index, ctx.case_seed);
-    let (cfg, plan, pdesc) = lf::generate(ctx.case_seed);
+    let (mut cfg, plan, pdesc) = lf::generate(ctx.case_seed);
+    cfg.keep_snapshots = ctx.index % 3 == 0;
     let lossy = plan.loss > 0.0;
     rep.desc = format!("{} plan[{}]", cfg.describe(), pdesc);
     let run = lf::run_life(ctx.case_seed, &cfg, plan);
@@ -691,6 +886,10 @@ fn c08_life(ctx: &CaseCtx) -> CaseReport {
     }
     let view = WireView::build(&run.events);
     mon::c08::check(&mut rep, &run.events, &cfg, run.result.as_ref(), ctx.case_seed, run.end_time, lossy);
+    if cfg.keep_snapshots {
+        // the lifetime bound after a local close rests on the inactivity / final-chance timer
+        mon::timers::check_deadline_wakeups(&mut rep, "C08", &run.events, &[mon::timers::Timer::Inactivity], None, run.end_time);
+    }
     for r in &cfg.rounds {
         for c in &r.conns {
             rep.labels.push(format!("{:?}/{:?}", c.3, r.fault));
@@ -1480,6 +1679,226 @@ pub fn finish(rep: &mut CaseReport, ctx: &CaseCtx, view: &WireView, events: Vec<
     if ctx.keep_events || !rep.violations.is_empty() {
         rep.events = events;
     }
+}
+
+/// Faults aimed at size probes. A loss-free baseline transfer (link MTUs from the protocol minimum to
+/// jumbo, no size black hole) is run once to learn where the sender's probes are - the datagrams
+/// that carry, for the first time, a payload larger than anything that sender sent before. Each
+/// case then re-runs the baseline with exact faults around one probe: the data packet before it
+/// lost, the probe held back for 0.4 - 3 s (it arrives next to the timeout retransmissions), the
+/// probe lost, the packet after it lost, the first packet of the other direction after it lost
+/// (its acknowledgement), and combinations. Oracles: the content oracles of C01 (reader boundary
+/// and wire).
+fn probe_faults(ctx: &CaseCtx, prop: &'static str) -> CaseReport {
+    use crate::events::{Ev, MS};
+    let mut rep = CaseReport::new(ctx.family, ctx.index, ctx.case_seed);
+    let baseline_id = ctx.index / 64;
+    let slot = ctx.index % 64;
+    let bseed = crate::runner::case_seed(ctx.seed, "probe_faults_baseline", baseline_id);
+    let make = || {
+        let mut g = duplex::generate(bseed, Profile::LossFree, 80_000);
+        let mut r = crate::prng::Prng::new(bseed ^ 0x9B0_FA17);
+        let ipv4 = !g.cfg.ipv6;
+        let min_mtu = if ipv4 { 576 } else { 1280 };
+        let link = match r.below(5) {
+            0 => None,
+            1 => Some(r.usize_range(min_mtu + 100, 1500)),
+            2 => Some(3000),
+            3 => Some(4500),
+            _ => Some(9000),
+        };
+        g.cfg.a.link_mtu = link;
+        g.cfg.b.link_mtu = link;
+        g.cfg.a.mtu_probe_max_retransmissions = Some(r.below(3) as usize);
+        g.cfg.b.mtu_probe_max_retransmissions = Some(r.below(3) as usize);
+        // enough data for several probes, one bulk direction at least
+        g.cfg.w[0].total = g.cfg.w[0].total.max(r.usize_range(20_000, 80_000));
+        g.cfg.w[0].pause_prob = 0.0;
+        let maxp = g.cfg.a.max_payload(ipv4).max(g.cfg.b.max_payload(ipv4));
+        for c in [&mut g.cfg.a, &mut g.cfg.b] {
+            if let Some(rx) = c.rx_buf {
+                c.rx_buf = Some(rx.max(2 * maxp + 1));
+            }
+        }
+        g.cfg.tail = 2 * crate::events::SEC;
+        g.cfg.deadline = std::time::Duration::from_secs(3600);
+        g
+    };
+    let g = make();
+    let base = duplex::run_duplex(bseed, &g.cfg, make().plan);
+    // probes of either sender: (send index, index of that sender's previous data packet, next data packet, first later packet of the other direction)
+    let mut sends: Vec<(u64, std::net::SocketAddr, bool, usize)> = Vec::new(); // (id, src, is data, payload)
+    for e in &base.events {
+        if let Ev::Send { id, src, pkt: Some(p), scripted: false, .. } = &e.ev {
+            sends.push((*id, *src, p.ty == crate::wire::ST_DATA, p.payload.len()));
+        }
+    }
+    let mut probes: Vec<(u64, Option<u64>, Option<u64>, Option<u64>)> = Vec::new();
+    let mut largest: std::collections::BTreeMap<std::net::SocketAddr, usize> = std::collections::BTreeMap::new();
+    for (i, (id, src, is_data, len)) in sends.iter().enumerate() {
+        if !*is_data {
+            continue;
+        }
+        let l = largest.entry(*src).or_insert(0);
+        if *len > *l {
+            if *l > 0 {
+                let prev = sends[..i].iter().rev().find(|s| s.1 == *src && s.2).map(|s| s.0);
+                let next = sends[i + 1..].iter().find(|s| s.1 == *src && s.2).map(|s| s.0);
+                let back = sends[i + 1..].iter().find(|s| s.1 != *src).map(|s| s.0);
+                probes.push((*id, prev, next, back));
+            }
+            *l = *len;
+        }
+    }
+    let which = (slot / 16) as usize;
+    let combo = slot % 16;
+    if probes.is_empty() || which >= probes.len().min(4) {
+        rep.counters.inc(&format!("{}_probe_fault_slots_skipped", prop.to_lowercase()));
+        rep.trace_hash = crate::prng::mix2(bseed, slot);
+        return rep;
+    }
+    // spread over the baseline's probes
+    let pick = which * probes.len() / probes.len().min(4);
+    let (pid, prev, next, back) = probes[pick];
+    let mut plan = make().plan;
+    let mut what = Vec::new();
+    let drop = |plan: &mut crate::sim::FaultPlan, x: Option<u64>, name: &str, what: &mut Vec<String>| {
+        if let Some(i) = x {
+            plan.drop_indices.insert(i);
+            what.push(format!("drop {name} #{i}"));
+        }
+    };
+    let delay = |plan: &mut crate::sim::FaultPlan, ms: u64, what: &mut Vec<String>| {
+        plan.delay_indices.insert(pid, ms * MS);
+        what.push(format!("delay probe #{pid} by {ms} ms"));
+    };
+    match combo {
+        0 => {
+            drop(&mut plan, prev, "previous data", &mut what);
+            delay(&mut plan, 400, &mut what);
+        }
+        1 => {
+            drop(&mut plan, prev, "previous data", &mut what);
+            delay(&mut plan, 1500, &mut what);
+        }
+        2 => {
+            drop(&mut plan, prev, "previous data", &mut what);
+            delay(&mut plan, 3000, &mut what);
+        }
+        3 => drop(&mut plan, prev, "previous data", &mut what),
+        4 => delay(&mut plan, 400, &mut what),
+        5 => delay(&mut plan, 2500, &mut what),
+        6 => {
+            drop(&mut plan, prev, "previous data", &mut what);
+            drop(&mut plan, Some(pid), "probe", &mut what);
+        }
+        7 => {
+            drop(&mut plan, prev, "previous data", &mut what);
+            drop(&mut plan, back, "first packet back", &mut what);
+        }
+        8 => {
+            drop(&mut plan, back, "first packet back", &mut what);
+            delay(&mut plan, 700, &mut what);
+        }
+        9 => {
+            drop(&mut plan, next, "next data", &mut what);
+            delay(&mut plan, 900, &mut what);
+        }
+        10 => {
+            drop(&mut plan, prev, "previous data", &mut what);
+            drop(&mut plan, next, "next data", &mut what);
+            delay(&mut plan, 600, &mut what);
+        }
+        11 => {
+            drop(&mut plan, Some(pid), "probe", &mut what);
+            drop(&mut plan, back, "first packet back", &mut what);
+        }
+        _ => {
+            // Adaptive straggler, two passes. Pass 1: the probe is held back for a very long time
+            // (with the other faults of the combination); the instant at which the sender first
+            // transmits the probe's sequence number again - unchanged or cut anew - is read off
+            // the trace. Pass 2: the old copy is held back exactly so long that it reaches the
+            // receiver just after that instant, ahead of (or together with) what the sender sent
+            // then.
+            match combo {
+                12 | 14 => drop(&mut plan, prev, "previous data", &mut what),
+                15 => drop(&mut plan, back, "first packet back", &mut what),
+                _ => {}
+            }
+            let mut p1 = make().plan;
+            p1.drop_indices = plan.drop_indices.clone();
+            p1.delay_indices.insert(pid, 600 * crate::events::SEC);
+            let r1 = duplex::run_duplex(bseed, &g.cfg, p1);
+            let mut probe_sent: Option<(crate::events::Us, std::net::SocketAddr, u16, u16)> = None;
+            let mut resent_at: Option<crate::events::Us> = None;
+            for e in &r1.events {
+                if let Ev::Send { id, src, pkt: Some(p), scripted: false, .. } = &e.ev {
+                    if *id == pid {
+                        probe_sent = Some((e.t, *src, p.conn_id, p.seq));
+                    } else if let Some((_, s0, c0, q0)) = probe_sent {
+                        if *src == s0 && p.conn_id == c0 && p.seq == q0 && p.ty == crate::wire::ST_DATA && resent_at.is_none() {
+                            resent_at = Some(e.t);
+                        }
+                    }
+                }
+            }
+            let lat = plan.latency.0;
+            match (probe_sent, resent_at) {
+                (Some((t0, _, _, _)), Some(t1)) => {
+                    let off = if combo == 14 { lat } else { (lat / 2 / MS).max(1) * MS };
+                    let arrive = t1 + off;
+                    if arrive > t0 + lat {
+                        plan.delay_indices.insert(pid, arrive - t0 - lat);
+                        what.push(format!("probe #{pid} held back to arrive at {} us (its sequence number was transmitted again at {} us)", arrive, t1));
+                    } else {
+                        what.push("adaptive straggler not applicable".into());
+                    }
+                }
+                _ => what.push("probe never transmitted again in pass 1".into()),
+            }
+            rep.counters.inc(&format!("{}_probe_fault_adaptive_cases", prop.to_lowercase()));
+        }
+    }
+    rep.desc = format!("baseline {baseline_id} ({} probes) {}: {} plan[{}]", probes.len(), what.join(", "), g.cfg.describe(), plan.describe());
+    let run = duplex::run_duplex(bseed, &g.cfg, plan);
+    let view = WireView::build(&run.events);
+    if let Some(p) = &run.panicked {
+        rep.inconclusive.push(format!("panic during the run: {p}"));
+    }
+    let lc = prop.to_lowercase();
+    if !view.conns.is_empty() {
+        let mut scratch = CaseReport::new("scratch", 0, 0);
+        let r0 = mon::c01::check_wire_dir(&mut scratch, &view, 0, true, stream_key(bseed, 0, 0), "w0");
+        let r1 = mon::c01::check_wire_dir(&mut scratch, &view, 0, false, stream_key(bseed, 0, 1), "w1");
+        for (side, r) in [(0u8, &r0), (1u8, &r1)] {
+            mon::c01::check_boundary(&mut scratch, &run.events, 0, side, r);
+        }
+        rep.counters.add(&format!("{lc}_probe_fault_reads_checked"), scratch.counters.get("c01_reads_checked"));
+        rep.counters.add(&format!("{lc}_probe_fault_bytes_read_checked"), scratch.counters.get("c01_bytes_read_checked"));
+        rep.counters.add(&format!("{lc}_probe_fault_probe_splits_seen"), scratch.counters.get("c01_probe_splits_seen"));
+        rep.counters.add(&format!("{lc}_probe_fault_recuts_without_expiry_report"), scratch.counters.get("c01_recuts_of_a_transmitted_probe_without_expiry_report"));
+        for v in scratch.violations {
+            if prop == "C01" {
+                rep.violate("C01", v.rule, v.signature, v.detail, v.at);
+            } else {
+                rep.violate("C14", v.rule, format!("content {}", v.signature), v.detail, v.at);
+            }
+        }
+    }
+    rep.counters.inc(&format!("{lc}_probe_fault_cases_run"));
+    rep.counters.add("datagrams", view.pkts.len() as u64);
+    rep.nontrivial = true;
+    let end = run.end_time;
+    finish(&mut rep, ctx, &view, run.events, end);
+    rep
+}
+
+fn c01_probe_faults(ctx: &CaseCtx) -> CaseReport {
+    probe_faults(ctx, "C01")
+}
+
+fn c14_probe_faults(ctx: &CaseCtx) -> CaseReport {
+    probe_faults(ctx, "C14")
 }
 
 fn c01_duplex(ctx: &CaseCtx) -> CaseReport {
